@@ -21,6 +21,104 @@ FLOAT_LITS = ["0.0", "1.5", "2.0", "0.5", "3.0", "100.0"]
 FLOAT_OPS = [("+", "add"), ("-", "sub"), ("*", "mul"), ("/", "div"), ("<", "lt"), ("<=", "le"), (">", "gt"), (">=", "ge"), ("==", "eq")]
 
 
+def float_chain_family(outcome, stats):
+    """chains of literal operands: `x op a op b` must equal (x op a) op b evaluated step by step through the variable form (float
+    arithmetic is not associative, so re-associating or pre-folding the literals changes the value).  S vs S over all bit patterns."""
+    ops = {"add": "+", "sub": "-", "mul": "*"}
+    pairs = [("1.0", "1.0"), ("0.2", "0.3"), ("0.1", "7.0")]
+    src = ""
+    for on, op in ops.items():
+        src += "fn vf_var_%s(x: float, y: float) -> float { x %s y }\n" % (on, op)
+    cases = []
+    for on1, op1 in ops.items():
+        for on2, op2 in ops.items():
+            if (op1 == "*") != (op2 == "*"):
+                continue  # mixed precedence: `x + a * b` is not a left-to-right chain
+            for k, (a, b) in enumerate(pairs):
+                name = "vf_chain_%s_%s_%d" % (on1, on2, k)
+                src += "fn %s(x: float) -> float { x %s %s %s %s }\n" % (name, op1, a, op2, b)
+                cases.append((name, on1, on2, a, b))
+    src += "".join("vf_var_%s(1.0, 2.0)\n" % on for on in ops) + "".join("%s(1.0)\n" % c[0] for c in cases)
+    n = hold = 0
+    samples = []
+    for mode, no_opt in (("opt", False), ("noopt", True)):
+        try:
+            prog = bytecode.compile_source(src, no_opt=no_opt)
+        except bytecode.CompileError as e:
+            outcome.inconc("float chain family does not compile (%s): %s" % (mode, str(e)[-200:]))
+            continue
+        for name, on1, on2, a, b in cases:
+            n += 1
+            try:
+                m1, chain_paths, inp1 = api.call(prog, name, lambda i: [i.make("float")])
+                x = inp1.leaves[0]
+
+                def second(i, a=a, b=b):
+                    return [i.make("float"), i.make("float")]
+                m2, p_first, inp2 = api.call(prog, "vf_var_%s" % on1, second)
+                m3, p_second, inp3 = api.call(prog, "vf_var_%s" % on2, second)
+            except (Unsupported, InternalFault) as e:
+                outcome.inconc("float chain family %s: %s" % (name, e))
+                continue
+            stats["queries"] += m1.queries + m2.queries + m3.queries
+            ok_paths = lambda ps: [st for st in ps if st.status == "done"]  # noqa: E731
+            c, f1, f2 = ok_paths(chain_paths), ok_paths(p_first), ok_paths(p_second)
+            if len(c) != 1 or len(f1) != 1 or len(f2) != 1 or len(chain_paths) != 1:
+                outcome.inconc("float chain family %s: more than one path (%d/%d/%d)" % (name, len(chain_paths), len(p_first), len(p_second)))
+                continue
+            as_bv = lambda t: z3.fpToIEEEBV(t) if z3.is_fp(t) else t  # noqa: E731
+            to_fp = lambda t: t if z3.is_fp(t) else z3.fpBVToFP(t, z3.Float64())  # noqa: E731
+            got = api.result_value(c[0]).v
+            r1 = api.result_value(f1[0]).v
+            r2 = api.result_value(f2[0]).v
+            lit = lambda v: z3.BitVecVal(float_bits(float(v)), 64)  # noqa: E731
+            # reference: step = variable form applied to (x, a), then to (that, b)
+            step1 = z3.substitute(r1, (inp2.leaves[0], x), (inp2.leaves[1], lit(a)))
+            step2 = z3.substitute(r2, (inp3.leaves[0], as_bv(step1)), (inp3.leaves[1], lit(b)))
+            s = z3.Solver()
+            s.set("timeout", 120000)
+            s.add(z3.Not(z3.fpIsNaN(to_fp(x))), z3.Not(z3.fpIsNaN(to_fp(step1))), z3.Not(z3.fpIsNaN(to_fp(step2))), z3.Not(z3.fpIsNaN(to_fp(got))))
+            s.add(as_bv(got) != as_bv(step2))
+            t1 = time.time()
+            r = s.check()
+            stats["solver_s"] += time.time() - t1
+            stats["queries"] += 1
+            if r == z3.unsat:
+                hold += 1
+                continue
+            if r == z3.unknown:
+                outcome.inconc("float chain family %s: solver unknown" % name)
+                continue
+            xv = s.model().eval(x, model_completion=True)
+            key = "float_chain_%s_%s_%s_%s:%s" % (on1, on2, a, b, mode)
+            samples.append({"template": name, "mode": mode, "x": str(xv)})
+            if outcome.findings.lookup("C05", key) is not None:
+                outcome.violation(key, "chained literal operands evaluated differently", None)
+                continue
+            # replay on the real VM: the chain against the same computation through variables
+            xbits = s.model().eval(as_bv(x), model_completion=True).as_long()
+            import struct
+            xf = struct.unpack("<d", struct.pack("<Q", xbits))[0]
+            import decimal
+            xlit = format(decimal.Decimal(xf), "f")  # exact decimal expansion (Abra has no exponent notation)
+            if "." not in xlit:
+                xlit += ".0"
+            if xlit.startswith("-"):
+                xlit = "(0.0 - %s)" % xlit[1:] if xf != 0 else "(0.0 * -1.0)"
+            text = ("fn chain(x: float) -> float { x %s %s %s %s }\nfn step(x: float, a: float, b: float) -> float {\n  let t = x %s a\n  t %s b\n}\n"
+                    "let x = %s\nprintln(chain(x) == step(x, %s, %s))\n" % (ops[on1], a, ops[on2], b, ops[on1], ops[on2], xlit, a, b))
+            real = bytecode.run_source(text, no_opt=no_opt)
+            rdir = os.path.join(VERIF, "replays", "C05")
+            os.makedirs(rdir, exist_ok=True)
+            path = os.path.join(rdir, key.replace(":", "_").replace(".", "_") + ".abra")
+            open(path, "w").write("// C05 %s: must print true\n// real VM: %s\n%s" % (key, real, text))
+            if real.get("status") == "done" and real.get("output", "").strip() == "false":
+                outcome.violation(key, "x %s %s %s %s differs from the step-by-step evaluation for x = %r [real VM printed false]" % (ops[on1], a, ops[on2], b, xf), path)
+            else:
+                outcome.inconc("float chain %s: model disagreement for x = %r did not reproduce on the real VM (%s)" % (name, xf, real))
+    return n, hold, samples
+
+
 def float_family(outcome, stats):
     """x op LIT (literal operand, immediate instruction forms) must behave exactly like x op y with y == LIT"""
     src = ""
@@ -129,6 +227,8 @@ def run(outcome, _harnesses):
     cov = tvrun.run_templates("C05", outcome, templates, modes=("opt", "noopt"), validate_vm=(t == "thorough"))
     stats = {"queries": 0, "solver_s": 0.0}
     n, hold, fsamples = float_family(outcome, stats)
+    n2, hold2, csamples = float_chain_family(outcome, stats)
+    n, hold, fsamples = n + n2, hold + hold2, csamples + fsamples
     cov["evaluations"] += n
     cov["distinct_nontrivial"] += hold
     cov["programs"] += 2
@@ -142,7 +242,7 @@ def run(outcome, _harnesses):
     cov["functions_encoded"] = ["optimize_bytecode::optimize and assembly::remove_labels_and_constants (run for real, on and off)",
                                 "vm instruction model of engine S incl. the immediate forms", "reference semantics R"]
     cov["bounds"] = ("%d integer templates x 2 modes (every arithmetic / comparison operator with variable, literal {0,1,-1,7,MAX,MIN}, literal-left "
-                     "and compound-assignment operands; thorough: plus the lambda and `?`/`!` families); float literal family: 9 operators x %d literals + -0.0 + "
+                     "and compound-assignment operands; thorough: plus the lambda and `?`/`!` families); float literal family: 9 operators x %d literals + -0.0 + chains `x op a op b` of two literal operands (same-precedence chains over + - *, 3 literal pairs, against the step-by-step variable form) + "
                      "constant folding of 1.0 / 0.0, non-NaN x. Outside: K-level validation of optimize() itself (out of CBMC's reach, measured), "
                      "float ^ and intrinsics." % (len(templates), len(FLOAT_LITS)))
     # literal operands at the VM level: the immediate arms of the REAL step() against the same oracle as the variable arms (engine K);
